@@ -313,3 +313,12 @@ func (g *Guards) Check() string {
 	}
 	return ""
 }
+
+// Bytes2 is a process-independent hash (FNV-1a) for digests that are compared across processes.
+func Bytes2(b []byte) uint64 {
+	var h uint64 = 14695981039346656037
+	for _, c := range b {
+		h = (h ^ uint64(c)) * 1099511628211
+	}
+	return h
+}
